@@ -9,7 +9,30 @@
                  model's algorithm (stores, counting cache, registries) is not consulted. *)
 From Coq Require Import List Arith Bool.
 Import ListNotations.
-From ZI Require Export Tie.RegCommon Model.Components Spec.Components.
+From ZI Require Export Lib.Util Model.Ro Model.Adapter Model.Components Spec.Components.
+
+(* (this tie deliberately depends only on Model/Ro.v and Model/Adapter.v of the shared registry
+   models; the few helpers it shares with Tie/RegCommon.v and Model/RegSys.v are repeated here) *)
+
+(* the world of a case: spec i has bases (nth i g) and is an interface iff (nth i ifaces) *)
+Definition mk_world (g : graph) (ifaces : list bool) : world :=
+  let n := length g in
+  let tbl := map (fun x => fresh_sro (S n) 0 g x) (seq 0 n) in
+  mkW (fun x => nth x tbl []) (fun x => nth x ifaces false).
+
+Fixpoint lex_leb (a b : list nat) : bool :=
+  match a, b with
+  | [], _ => true
+  | _ :: _, [] => false
+  | x :: a', y :: b' => if Nat.ltb x y then true else if Nat.ltb y x then false else lex_leb a' b'
+  end.
+Fixpoint ins_sorted {A} (x : list nat * A) (l : list (list nat * A)) : list (list nat * A) :=
+  match l with
+  | [] => [x]
+  | y :: l' => if lex_leb (fst y) (fst x) then y :: ins_sorted x l' else x :: l
+  end.
+Definition sort_by_key {A} (l : list (list nat * A)) : list (list nat * A) :=
+  fold_left (fun acc x => ins_sorted x acc) l [].
 
 (* what a component returns when called (mirrors c16_driver.oracle_call) *)
 Definition call16 (v : value) (os : list nat) : option nat :=
